@@ -50,7 +50,7 @@ class C08(Check):
 
     def generate(self, rng, stratum, tier):
         depth = 2 if stratum == 'S-depth2' else rng.choice([0, 0, 1])
-        libs = ('lin', 'integ', 'leak', 'osc')
+        libs = ('lin', 'integ', 'leak', 'osc', 'linl')
         if stratum == 'S-cols':
             libs = (rng.choice(libs),)
         spec = models.gen_net(rng, n_nodes=rng.randint(2 if stratum == 'S-cols' else 1, 5), libs=libs,
